@@ -88,12 +88,18 @@ fn run(args: &[String]) -> i32 {
         exhaustive: None,
     };
     let mut inflight = Inflight { f: std::fs::File::create(format!("{}.inflight", out)).ok(), last_len: 0, seq: 0 };
+    let exclude: Vec<u64> = arg(args, "--exclude-seq").map(|s| s.split(',').filter_map(|x| x.parse().ok()).collect()).unwrap_or_default();
+    let mut seen_pat: std::collections::HashSet<u64> = std::collections::HashSet::new();
     let mut seen_viol: std::collections::HashSet<u64> = std::collections::HashSet::new();
     let mut truncated = false;
     let mut shrink_budget_left = max_shrink;
 
     let mut handle = |c: Case, rep: &mut Report, inflight: &mut Inflight, is_corpus: bool| {
         inflight.note(&c);
+        if exclude.contains(&inflight.seq) {
+            *rep.inconclusive.entry("excluded_after_abort_or_hang".to_string()).or_insert(0) += 1;
+            return;
+        }
         rep.evaluations += 1;
         let o = mon.check(&c, &mut rep.obs);
         let probes = regexml::verif::take_probes();
@@ -110,6 +116,12 @@ fn run(args: &[String]) -> i32 {
                 let f = fs.into_iter().next().unwrap();
                 let vkey = c.key() ^ gen::hash_str(&f.kind);
                 if !seen_viol.insert(vkey) {
+                    return;
+                }
+                // one minimisation per distinct failing (kind, pattern, flags)
+                let pkey = gen::hash_str(&c.pattern) ^ gen::hash_str(&f.kind).rotate_left(7) ^ gen::hash_str(&c.flags).rotate_left(29) ^ c.repl.as_deref().map(gen::hash_str).unwrap_or(0).rotate_left(41);
+                if !seen_pat.insert(pkey) {
+                    rep.obs.count("violations_same_pattern_not_reminimised");
                     return;
                 }
                 if is_corpus {
@@ -146,8 +158,18 @@ fn run(args: &[String]) -> i32 {
         }
     };
 
-    for c in mon.corpus() {
-        handle(c, &mut rep, &mut inflight, true);
+    if shard == 0 {
+        for c in mon.corpus() {
+            handle(c, &mut rep, &mut inflight, true);
+        }
+        if let Some(cf) = arg(args, "--corpus") {
+            let text = std::fs::read_to_string(&cf).expect("read corpus");
+            if let Ok(J::Arr(v)) = J::parse(&text) {
+                for cj in v {
+                    handle(Case::from_json(&cj), &mut rep, &mut inflight, true);
+                }
+            }
+        }
     }
     let corpus_n = rep.evaluations;
     let desc = mon.workload(&work, &mut |c: Case| {
